@@ -218,7 +218,19 @@ pub fn run_case(case: &Value, idx: usize, seed: u64, pool: &mut KeyPool, out: &m
 	let (issuer_obj, issuer_json) = if is_self {
 		(None, json!({"dn": p["dn"], "kid": p["kid"], "subjectRaw": ""}))
 	} else {
-		match self_signed_logged(&issuer_desc(&issuer_dn, &issuer_kid), signer, "issuer", &case_id, out) {
+		// the issuer is a CA without path length unless the case says otherwise (rcgen signs under any certificate object)
+		let mut idesc = issuer_desc(&issuer_dn, &issuer_kid);
+		if let Some(v) = case.get("issuerIsCa") {
+			if v.is_object() {
+				idesc["isCa"] = v.clone();
+			}
+		}
+		if let Some(v) = case.get("issuerKu") {
+			if v.is_array() {
+				idesc["ku"] = v.clone();
+			}
+		}
+		match self_signed_logged(&idesc, signer, "issuer", &case_id, out) {
 			Some((c, raw)) => (Some(c), json!({"dn": issuer_dn, "kid": issuer_kid, "subjectRaw": raw})),
 			None => return,
 		}
